@@ -10,6 +10,9 @@
 #include "quill/core/BoundedSPSCQueue.h"
 #include "quill/core/Common.h"
 #include "quill/core/QuillError.h"
+#if defined(QUILL_VERIF)
+  #include "quill/core/VerifHooks.h"
+#endif
 
 #include <atomic>
 #include <cassert>
@@ -170,6 +173,9 @@ public:
     // the consumer will switch to the newer queue after emptying and deallocating the older queue
     auto const next_node = new Node{capacity, _producer->bounded_queue.huge_pages_policy()};
 
+#if defined(QUILL_VERIF)
+    verif::hit(verif::UQ_BEFORE_PUBLISH_NEXT, this, capacity);
+#endif
     // store the new node pointer as next in the current node
     _producer->next.store(next_node, std::memory_order_release);
 
@@ -275,6 +281,9 @@ private:
     // We failed to reserve because the queue was full, create a new node with a new queue
     auto const next_node = new Node{capacity, _producer->bounded_queue.huge_pages_policy()};
 
+#if defined(QUILL_VERIF)
+    verif::hit(verif::UQ_BEFORE_PUBLISH_NEXT, this, capacity);
+#endif
     // store the new node pointer as next in the current node
     _producer->next.store(next_node, std::memory_order_release);
 
@@ -294,6 +303,9 @@ private:
   {
     // a new buffer was added by the producer, this happens only when we have allocated a new queue
 
+#if defined(QUILL_VERIF)
+    verif::hit(verif::UQ_NEXT_SEEN, this, 0);
+#endif
     // try the existing buffer once more
     ReadResult read_result{_consumer->bounded_queue.prepare_read()};
 
@@ -308,6 +320,9 @@ private:
 
     // switch to the new buffer, existing one is deleted
     auto const previous_capacity = _consumer->bounded_queue.capacity();
+#if defined(QUILL_VERIF)
+    verif::hit(verif::UQ_BEFORE_DELETE, this, previous_capacity);
+#endif
     delete _consumer;
 
     _consumer = next_node;
